@@ -117,15 +117,18 @@ package document
 //@ ensures forall j int :: 0 <= j && j < old(len(d.Body.Elements)) ==> d.Body.Elements[j] == old(d.Body.Elements[j])
 //@ ensures old(noSect(d.Body.Elements)) ==> len(d.Body.Elements[old(len(d.Body.Elements))].(*SectionProperties).HeaderReferences) == 1 && len(d.Body.Elements[old(len(d.Body.Elements))].(*SectionProperties).FooterReferences) == 0 && d.Body.Elements[old(len(d.Body.Elements))].(*SectionProperties).TitlePage == nil
 //@ ensures old(noSect(d.Body.Elements)) ==> fresh(d.Body.Elements[old(len(d.Body.Elements))].(*SectionProperties).HeaderReferences[0]) && d.Body.Elements[old(len(d.Body.Elements))].(*SectionProperties).HeaderReferences[0].Type == string(headerType) && d.Body.Elements[old(len(d.Body.Elements))].(*SectionProperties).HeaderReferences[0].ID == headerID
-//@ ensures forall s *SectionProperties :: allocated(s) && old(isFirstSect(d.Body.Elements, s)) && old(hdrNone(s.HeaderReferences, string(headerType))) ==> len(s.HeaderReferences) == old(len(s.HeaderReferences)) + 1 && fresh(s.HeaderReferences[old(len(s.HeaderReferences))]) && s.HeaderReferences[old(len(s.HeaderReferences))].Type == string(headerType) && s.HeaderReferences[old(len(s.HeaderReferences))].ID == headerID && (forall q int :: 0 <= q && q < old(len(s.HeaderReferences)) ==> s.HeaderReferences[q] == old(s.HeaderReferences[q]))
-//@ ensures forall s *SectionProperties, k int :: allocated(s) && old(isFirstSect(d.Body.Elements, s)) && old(hdrFirstAt(s.HeaderReferences, k, string(headerType))) ==> len(s.HeaderReferences) == old(len(s.HeaderReferences)) && s.HeaderReferences[k].ID == headerID && (forall q int :: 0 <= q && q < len(s.HeaderReferences) ==> s.HeaderReferences[q] == old(s.HeaderReferences[q])) && (forall r *HeaderFooterReference :: allocated(r) && r != old(s.HeaderReferences[k]) ==> r.ID == old(r.ID))
+//@ ensures forall s *SectionProperties :: {s.HeaderReferences} allocated(s) && old(isFirstSect(d.Body.Elements, s)) && old(hdrNone(s.HeaderReferences, string(headerType))) ==> len(s.HeaderReferences) == old(len(s.HeaderReferences)) + 1 && fresh(s.HeaderReferences[old(len(s.HeaderReferences))]) && s.HeaderReferences[old(len(s.HeaderReferences))].Type == string(headerType) && s.HeaderReferences[old(len(s.HeaderReferences))].ID == headerID && (forall q int :: 0 <= q && q < old(len(s.HeaderReferences)) ==> s.HeaderReferences[q] == old(s.HeaderReferences[q]))
+//@ ensures forall s *SectionProperties, k int :: {s.HeaderReferences[k]} allocated(s) && old(isFirstSect(d.Body.Elements, s)) && old(hdrFirstAt(s.HeaderReferences, k, string(headerType))) ==> len(s.HeaderReferences) == old(len(s.HeaderReferences)) && s.HeaderReferences[k].ID == headerID && (forall q int :: 0 <= q && q < len(s.HeaderReferences) ==> s.HeaderReferences[q] == old(s.HeaderReferences[q])) && (forall r *HeaderFooterReference :: allocated(r) && r != old(s.HeaderReferences[k]) ==> r.ID == old(r.ID))
 //@ ensures (old(noSect(d.Body.Elements)) || (forall s *SectionProperties :: allocated(s) && old(isFirstSect(d.Body.Elements, s)) ==> old(hdrNone(s.HeaderReferences, string(headerType))))) ==> forall r *HeaderFooterReference :: allocated(r) ==> r.ID == old(r.ID)
-//@ ensures forall s *SectionProperties :: allocated(s) && !old(isFirstSect(d.Body.Elements, s)) ==> s.HeaderReferences == old(s.HeaderReferences) && s.XmlnsR == old(s.XmlnsR)
-//@ ensures forall s *SectionProperties :: allocated(s) && old(s.XmlnsR) != "" ==> s.XmlnsR == old(s.XmlnsR)
+//@ ensures forall s *SectionProperties :: {s.HeaderReferences} allocated(s) && !old(isFirstSect(d.Body.Elements, s)) ==> s.HeaderReferences == old(s.HeaderReferences)
+//@ ensures forall s *SectionProperties :: {s.XmlnsR} allocated(s) && !old(isFirstSect(d.Body.Elements, s)) ==> s.XmlnsR == old(s.XmlnsR)
+//@ ensures forall s *SectionProperties :: {s.XmlnsR} allocated(s) && old(s.XmlnsR) != "" ==> s.XmlnsR == old(s.XmlnsR)
 //@ ensures old(noSect(d.Body.Elements)) ==> hdrOneAt(d.Body.Elements[old(len(d.Body.Elements))].(*SectionProperties).HeaderReferences, 0, string(headerType), headerID)
-//@ ensures forall s *SectionProperties :: allocated(s) && old(isFirstSect(d.Body.Elements, s)) && old(hdrNone(s.HeaderReferences, string(headerType))) ==> hdrOneAt(s.HeaderReferences, old(len(s.HeaderReferences)), string(headerType), headerID)
-//@ ensures forall s *SectionProperties, k int :: allocated(s) && old(isFirstSect(d.Body.Elements, s)) && old(hdrFirstAt(s.HeaderReferences, k, string(headerType))) && old(hdrAtMostOne(s.HeaderReferences, string(headerType))) ==> hdrOneAt(s.HeaderReferences, k, string(headerType), headerID)
-//@ ensures forall s *SectionProperties, other string :: allocated(s) && old(isFirstSect(d.Body.Elements, s)) && other != string(headerType) && old(hdrAtMostOne(s.HeaderReferences, other)) ==> hdrAtMostOne(s.HeaderReferences, other)
+//@ ensures forall s *SectionProperties :: {s.HeaderReferences} allocated(s) && old(isFirstSect(d.Body.Elements, s)) && old(hdrNone(s.HeaderReferences, string(headerType))) ==> hdrOneAt(s.HeaderReferences, old(len(s.HeaderReferences)), string(headerType), headerID)
+//@ ensures forall s *SectionProperties, k int :: {s.HeaderReferences[k]} allocated(s) && old(isFirstSect(d.Body.Elements, s)) && old(hdrFirstAt(s.HeaderReferences, k, string(headerType))) && old(hdrAtMostOne(s.HeaderReferences, string(headerType))) ==> hdrOneAt(s.HeaderReferences, k, string(headerType), headerID)
+//@ ensures forall s *SectionProperties :: {s.HeaderReferences} allocated(s) && old(isFirstSect(d.Body.Elements, s)) && string(headerType) != "default" && old(hdrAtMostOne(s.HeaderReferences, "default")) ==> hdrAtMostOne(s.HeaderReferences, "default")
+//@ ensures forall s *SectionProperties :: {s.HeaderReferences} allocated(s) && old(isFirstSect(d.Body.Elements, s)) && string(headerType) != "first" && old(hdrAtMostOne(s.HeaderReferences, "first")) ==> hdrAtMostOne(s.HeaderReferences, "first")
+//@ ensures forall s *SectionProperties :: {s.HeaderReferences} allocated(s) && old(isFirstSect(d.Body.Elements, s)) && string(headerType) != "even" && old(hdrAtMostOne(s.HeaderReferences, "even")) ==> hdrAtMostOne(s.HeaderReferences, "even")
 //@ ensures unchangedExcept("Body.Elements", "cell:any", "SectionProperties.XmlnsR", "SectionProperties.HeaderReferences", "HeaderFooterReference.ID", "cell:*HeaderFooterReference")
 //@ loop 1
 //@   invariant 0 <= #i && #i <= len(sectPr.HeaderReferences)
@@ -155,17 +158,350 @@ package document
 //@ ensures forall j int :: 0 <= j && j < old(len(d.Body.Elements)) ==> d.Body.Elements[j] == old(d.Body.Elements[j])
 //@ ensures old(noSect(d.Body.Elements)) ==> len(d.Body.Elements[old(len(d.Body.Elements))].(*SectionProperties).FooterReferences) == 1 && len(d.Body.Elements[old(len(d.Body.Elements))].(*SectionProperties).HeaderReferences) == 0 && d.Body.Elements[old(len(d.Body.Elements))].(*SectionProperties).TitlePage == nil
 //@ ensures old(noSect(d.Body.Elements)) ==> fresh(d.Body.Elements[old(len(d.Body.Elements))].(*SectionProperties).FooterReferences[0]) && d.Body.Elements[old(len(d.Body.Elements))].(*SectionProperties).FooterReferences[0].Type == string(footerType) && d.Body.Elements[old(len(d.Body.Elements))].(*SectionProperties).FooterReferences[0].ID == footerID
-//@ ensures forall s *SectionProperties :: allocated(s) && old(isFirstSect(d.Body.Elements, s)) && old(ftrNone(s.FooterReferences, string(footerType))) ==> len(s.FooterReferences) == old(len(s.FooterReferences)) + 1 && fresh(s.FooterReferences[old(len(s.FooterReferences))]) && s.FooterReferences[old(len(s.FooterReferences))].Type == string(footerType) && s.FooterReferences[old(len(s.FooterReferences))].ID == footerID && (forall q int :: 0 <= q && q < old(len(s.FooterReferences)) ==> s.FooterReferences[q] == old(s.FooterReferences[q]))
-//@ ensures forall s *SectionProperties, k int :: allocated(s) && old(isFirstSect(d.Body.Elements, s)) && old(ftrFirstAt(s.FooterReferences, k, string(footerType))) ==> len(s.FooterReferences) == old(len(s.FooterReferences)) && s.FooterReferences[k].ID == footerID && (forall q int :: 0 <= q && q < len(s.FooterReferences) ==> s.FooterReferences[q] == old(s.FooterReferences[q])) && (forall r *FooterReference :: allocated(r) && r != old(s.FooterReferences[k]) ==> r.ID == old(r.ID))
+//@ ensures forall s *SectionProperties :: {s.FooterReferences} allocated(s) && old(isFirstSect(d.Body.Elements, s)) && old(ftrNone(s.FooterReferences, string(footerType))) ==> len(s.FooterReferences) == old(len(s.FooterReferences)) + 1 && fresh(s.FooterReferences[old(len(s.FooterReferences))]) && s.FooterReferences[old(len(s.FooterReferences))].Type == string(footerType) && s.FooterReferences[old(len(s.FooterReferences))].ID == footerID && (forall q int :: 0 <= q && q < old(len(s.FooterReferences)) ==> s.FooterReferences[q] == old(s.FooterReferences[q]))
+//@ ensures forall s *SectionProperties, k int :: {s.FooterReferences[k]} allocated(s) && old(isFirstSect(d.Body.Elements, s)) && old(ftrFirstAt(s.FooterReferences, k, string(footerType))) ==> len(s.FooterReferences) == old(len(s.FooterReferences)) && s.FooterReferences[k].ID == footerID && (forall q int :: 0 <= q && q < len(s.FooterReferences) ==> s.FooterReferences[q] == old(s.FooterReferences[q])) && (forall r *FooterReference :: allocated(r) && r != old(s.FooterReferences[k]) ==> r.ID == old(r.ID))
 //@ ensures (old(noSect(d.Body.Elements)) || (forall s *SectionProperties :: allocated(s) && old(isFirstSect(d.Body.Elements, s)) ==> old(ftrNone(s.FooterReferences, string(footerType))))) ==> forall r *FooterReference :: allocated(r) ==> r.ID == old(r.ID)
-//@ ensures forall s *SectionProperties :: allocated(s) && !old(isFirstSect(d.Body.Elements, s)) ==> s.FooterReferences == old(s.FooterReferences) && s.XmlnsR == old(s.XmlnsR)
-//@ ensures forall s *SectionProperties :: allocated(s) && old(s.XmlnsR) != "" ==> s.XmlnsR == old(s.XmlnsR)
+//@ ensures forall s *SectionProperties :: {s.FooterReferences} allocated(s) && !old(isFirstSect(d.Body.Elements, s)) ==> s.FooterReferences == old(s.FooterReferences)
+//@ ensures forall s *SectionProperties :: {s.XmlnsR} allocated(s) && !old(isFirstSect(d.Body.Elements, s)) ==> s.XmlnsR == old(s.XmlnsR)
+//@ ensures forall s *SectionProperties :: {s.XmlnsR} allocated(s) && old(s.XmlnsR) != "" ==> s.XmlnsR == old(s.XmlnsR)
 //@ ensures old(noSect(d.Body.Elements)) ==> ftrOneAt(d.Body.Elements[old(len(d.Body.Elements))].(*SectionProperties).FooterReferences, 0, string(footerType), footerID)
-//@ ensures forall s *SectionProperties :: allocated(s) && old(isFirstSect(d.Body.Elements, s)) && old(ftrNone(s.FooterReferences, string(footerType))) ==> ftrOneAt(s.FooterReferences, old(len(s.FooterReferences)), string(footerType), footerID)
-//@ ensures forall s *SectionProperties, k int :: allocated(s) && old(isFirstSect(d.Body.Elements, s)) && old(ftrFirstAt(s.FooterReferences, k, string(footerType))) && old(ftrAtMostOne(s.FooterReferences, string(footerType))) ==> ftrOneAt(s.FooterReferences, k, string(footerType), footerID)
-//@ ensures forall s *SectionProperties, other string :: allocated(s) && old(isFirstSect(d.Body.Elements, s)) && other != string(footerType) && old(ftrAtMostOne(s.FooterReferences, other)) ==> ftrAtMostOne(s.FooterReferences, other)
+//@ ensures forall s *SectionProperties :: {s.FooterReferences} allocated(s) && old(isFirstSect(d.Body.Elements, s)) && old(ftrNone(s.FooterReferences, string(footerType))) ==> ftrOneAt(s.FooterReferences, old(len(s.FooterReferences)), string(footerType), footerID)
+//@ ensures forall s *SectionProperties, k int :: {s.FooterReferences[k]} allocated(s) && old(isFirstSect(d.Body.Elements, s)) && old(ftrFirstAt(s.FooterReferences, k, string(footerType))) && old(ftrAtMostOne(s.FooterReferences, string(footerType))) ==> ftrOneAt(s.FooterReferences, k, string(footerType), footerID)
+//@ ensures forall s *SectionProperties :: {s.FooterReferences} allocated(s) && old(isFirstSect(d.Body.Elements, s)) && string(footerType) != "default" && old(ftrAtMostOne(s.FooterReferences, "default")) ==> ftrAtMostOne(s.FooterReferences, "default")
+//@ ensures forall s *SectionProperties :: {s.FooterReferences} allocated(s) && old(isFirstSect(d.Body.Elements, s)) && string(footerType) != "first" && old(ftrAtMostOne(s.FooterReferences, "first")) ==> ftrAtMostOne(s.FooterReferences, "first")
+//@ ensures forall s *SectionProperties :: {s.FooterReferences} allocated(s) && old(isFirstSect(d.Body.Elements, s)) && string(footerType) != "even" && old(ftrAtMostOne(s.FooterReferences, "even")) ==> ftrAtMostOne(s.FooterReferences, "even")
 //@ ensures unchangedExcept("Body.Elements", "cell:any", "SectionProperties.XmlnsR", "SectionProperties.FooterReferences", "FooterReference.ID", "cell:*FooterReference")
 //@ loop 1
 //@   invariant 0 <= #i && #i <= len(sectPr.FooterReferences)
 //@   invariant forall q int :: 0 <= q && q < #i ==> sectPr.FooterReferences[q] == nil || sectPr.FooterReferences[q].Type != string(footerType)
 //@   decreases len(sectPr.FooterReferences) - #i
+
+// SetDifferentFirstPage only sets or clears the title-page flag of the (found or created) section settings:
+// header and footer references, relationships and parts are untouched, no second section-properties element appears.
+//@ func (*Document).SetDifferentFirstPage
+//@ props C11
+//@ requires d != nil && d.Body != nil && elemsOK(d.Body.Elements)
+//@ ensures d.Body == old(d.Body) && elemsOK(d.Body.Elements)
+//@ ensures !old(noSect(d.Body.Elements)) ==> len(d.Body.Elements) == old(len(d.Body.Elements))
+//@ ensures old(noSect(d.Body.Elements)) ==> len(d.Body.Elements) == old(len(d.Body.Elements)) + 1 && isSect(d.Body.Elements[old(len(d.Body.Elements))]) && fresh(d.Body.Elements[old(len(d.Body.Elements))].(*SectionProperties))
+//@ ensures old(noSect(d.Body.Elements)) ==> len(d.Body.Elements[old(len(d.Body.Elements))].(*SectionProperties).HeaderReferences) == 0 && len(d.Body.Elements[old(len(d.Body.Elements))].(*SectionProperties).FooterReferences) == 0 && (d.Body.Elements[old(len(d.Body.Elements))].(*SectionProperties).TitlePage != nil) == different
+//@ ensures forall j int :: 0 <= j && j < old(len(d.Body.Elements)) ==> d.Body.Elements[j] == old(d.Body.Elements[j])
+//@ ensures forall s *SectionProperties :: {s.TitlePage} allocated(s) && old(isFirstSect(d.Body.Elements, s)) ==> (s.TitlePage != nil) == different
+//@ ensures forall s *SectionProperties :: {s.TitlePage} allocated(s) && !old(isFirstSect(d.Body.Elements, s)) ==> s.TitlePage == old(s.TitlePage)
+//@ ensures forall s *SectionProperties :: {s.XmlnsR} allocated(s) && (old(s.XmlnsR) != "" || !old(isFirstSect(d.Body.Elements, s))) ==> s.XmlnsR == old(s.XmlnsR)
+//@ ensures unchangedExcept("Body.Elements", "cell:any", "SectionProperties.XmlnsR", "SectionProperties.TitlePage")
+
+// ---- what goes into the part: the paragraph handed to the serialiser ----------------------------------------
+
+// The formatted header/footer paragraph carries exactly the text, alignment and run formatting of the call:
+// one run with the text (none for an empty text), justification iff an alignment is given, and run properties
+// that mirror the TextFormat field by field (font family from FontFamily, else FontName; size in half points;
+// colour without a leading '#'; underline "single").
+//@ spec fmtFont(f *TextFormat) string = ite(f.FontFamily != "", f.FontFamily, f.FontName)
+//@ func createFormattedParagraph
+//@ props C11
+//@ modifies nothing
+//@ ensures fresh(result)
+//@ ensures alignment == "" ==> result.Properties == nil
+//@ ensures alignment != "" ==> fresh(result.Properties) && fresh(result.Properties.Justification) && result.Properties.Justification.Val == string(alignment)
+//@ ensures text == "" ==> len(result.Runs) == 0
+//@ ensures text != "" ==> len(result.Runs) == 1 && result.Runs[0].Text.Content == text && result.Runs[0].Text.Space == "preserve" && result.Runs[0].Drawing == nil && result.Runs[0].FieldChar == nil && result.Runs[0].InstrText == nil && result.Runs[0].Break == nil
+//@ ensures text != "" && format == nil ==> result.Runs[0].Properties == nil
+//@ ensures text != "" && format != nil ==> fresh(result.Runs[0].Properties)
+//@ ensures text != "" && format != nil ==> (result.Runs[0].Properties.Bold != nil) == format.Bold && (result.Runs[0].Properties.Italic != nil) == format.Italic && (result.Runs[0].Properties.Strike != nil) == format.Strike
+//@ ensures text != "" && format != nil ==> (result.Runs[0].Properties.Underline != nil) == format.Underline && (format.Underline ==> result.Runs[0].Properties.Underline.Val == "single")
+//@ ensures text != "" && format != nil ==> (result.Runs[0].Properties.FontFamily != nil) == (fmtFont(format) != "") && (fmtFont(format) != "" ==> result.Runs[0].Properties.FontFamily.ASCII == fmtFont(format) && result.Runs[0].Properties.FontFamily.HAnsi == fmtFont(format) && result.Runs[0].Properties.FontFamily.EastAsia == fmtFont(format) && result.Runs[0].Properties.FontFamily.CS == fmtFont(format))
+//@ ensures text != "" && format != nil ==> (result.Runs[0].Properties.Color != nil) == (format.FontColor != "") && (format.FontColor != "" ==> result.Runs[0].Properties.Color.Val == strings.TrimPrefix(format.FontColor, "#"))
+//@ ensures text != "" && format != nil ==> (result.Runs[0].Properties.FontSize != nil) == (format.FontSize > 0) && (format.FontSize > 0 ==> result.Runs[0].Properties.FontSize.Val == itoa(format.FontSize * 2))
+//@ ensures text != "" && format != nil ==> (result.Runs[0].Properties.Highlight != nil) == (format.Highlight != "") && (format.Highlight != "" ==> result.Runs[0].Properties.Highlight.Val == format.Highlight)
+
+// The page-number field: begin, the PAGE instruction, separate, the placeholder text, end, in this order.
+//@ func createPageNumberRuns
+//@ props C11
+//@ modifies nothing
+//@ ensures len(result) == 5 && freshArr(result)
+//@ ensures result[0].FieldChar != nil && result[0].FieldChar.FieldCharType == "begin" && result[0].InstrText == nil && result[0].Text.Content == ""
+//@ ensures result[1].InstrText != nil && result[1].InstrText.Space == "preserve" && result[1].InstrText.Content == " PAGE  \\* MERGEFORMAT " && result[1].FieldChar == nil && result[1].Text.Content == ""
+//@ ensures result[2].FieldChar != nil && result[2].FieldChar.FieldCharType == "separate" && result[2].InstrText == nil && result[2].Text.Content == ""
+//@ ensures result[3].Text.Content == "1" && result[3].FieldChar == nil && result[3].InstrText == nil
+//@ ensures result[4].FieldChar != nil && result[4].FieldChar.FieldCharType == "end" && result[4].InstrText == nil && result[4].Text.Content == ""
+
+// ---- GENERATED by /verif/tools/gen_hf_contracts.py: the six public calls (do not edit by hand) ----
+
+//@ func (*Document).AddHeader
+//@ props C11, C02
+//@ requires docParts(d) && elemsOK(d.Body.Elements)
+// failure (a kind that is not one of the three, or the serialiser reports an error): nothing has changed
+//@ ensures !validKind(headerType) ==> err != nil
+//@ ensures err != nil ==> unchangedHeap()
+//@ ensures err == nil ==> d.Body == old(d.Body) && d.parts == old(d.parts) && d.contentTypes == old(d.contentTypes) && d.documentRelationships == old(d.documentRelationships)
+// the part of the kind is (re)written, every other part stays
+//@ ensures err == nil ==> has(d.parts, "word/" + hfFile("header", headerType))
+//@ ensures err == nil ==> forall k string :: k != "word/" + hfFile("header", headerType) ==> has(d.parts, k) == old(has(d.parts, k)) && d.parts[k] == old(d.parts[k])
+// relationship of the part: found (list unchanged) or exactly one appended (fresh id, never "rId1"); earlier ones stay
+//@ ensures err == nil && !old(relNone(d.documentRelationships.Relationships, "http://schemas.openxmlformats.org/officeDocument/2006/relationships/header", hfFile("header", headerType))) ==> len(d.documentRelationships.Relationships) == old(len(d.documentRelationships.Relationships))
+//@ ensures err == nil && old(relNone(d.documentRelationships.Relationships, "http://schemas.openxmlformats.org/officeDocument/2006/relationships/header", hfFile("header", headerType))) ==> len(d.documentRelationships.Relationships) == old(len(d.documentRelationships.Relationships)) + 1 && d.documentRelationships.Relationships[old(len(d.documentRelationships.Relationships))].Type == "http://schemas.openxmlformats.org/officeDocument/2006/relationships/header" && d.documentRelationships.Relationships[old(len(d.documentRelationships.Relationships))].Target == hfFile("header", headerType) && d.documentRelationships.Relationships[old(len(d.documentRelationships.Relationships))].ID != "rId1"
+//@ ensures err == nil && old(relNone(d.documentRelationships.Relationships, "http://schemas.openxmlformats.org/officeDocument/2006/relationships/header", hfFile("header", headerType))) ==> forall j int :: 0 <= j && j < old(len(d.documentRelationships.Relationships)) ==> d.documentRelationships.Relationships[j].ID != d.documentRelationships.Relationships[old(len(d.documentRelationships.Relationships))].ID
+//@ ensures err == nil ==> forall j int :: 0 <= j && j < old(len(d.documentRelationships.Relationships)) ==> d.documentRelationships.Relationships[j] == old(d.documentRelationships.Relationships[j])
+//@ ensures err == nil && old(relIDsUnique(d.documentRelationships.Relationships)) ==> relIDsUnique(d.documentRelationships.Relationships)
+// content type of the part registered once; earlier overrides stay
+//@ ensures err == nil ==> ctHas(d.contentTypes.Overrides, "/" + ("word/" + hfFile("header", headerType)))
+//@ ensures err == nil && old(ctHas(d.contentTypes.Overrides, "/" + ("word/" + hfFile("header", headerType)))) ==> len(d.contentTypes.Overrides) == old(len(d.contentTypes.Overrides))
+//@ ensures err == nil && !old(ctHas(d.contentTypes.Overrides, "/" + ("word/" + hfFile("header", headerType)))) ==> len(d.contentTypes.Overrides) == old(len(d.contentTypes.Overrides)) + 1 && d.contentTypes.Overrides[old(len(d.contentTypes.Overrides))].PartName == "/" + ("word/" + hfFile("header", headerType)) && d.contentTypes.Overrides[old(len(d.contentTypes.Overrides))].ContentType == "application/vnd.openxmlformats-officedocument.wordprocessingml.header+xml"
+//@ ensures err == nil ==> forall j int :: 0 <= j && j < old(len(d.contentTypes.Overrides)) ==> d.contentTypes.Overrides[j] == old(d.contentTypes.Overrides[j])
+// section settings found or created: never a second element, every other body element stays in place
+//@ ensures elemsOK(d.Body.Elements)
+//@ ensures err == nil && !old(noSect(d.Body.Elements)) ==> len(d.Body.Elements) == old(len(d.Body.Elements))
+//@ ensures err == nil && old(noSect(d.Body.Elements)) ==> len(d.Body.Elements) == old(len(d.Body.Elements)) + 1 && isSect(d.Body.Elements[old(len(d.Body.Elements))]) && fresh(d.Body.Elements[old(len(d.Body.Elements))].(*SectionProperties))
+//@ ensures err == nil ==> forall j int :: 0 <= j && j < old(len(d.Body.Elements)) ==> d.Body.Elements[j] == old(d.Body.Elements[j])
+// exactly one reference of the kind, and its id resolves to a relationship of the right type whose target is the kind's part:
+// (a) fresh section settings
+//@ ensures err == nil && old(noSect(d.Body.Elements)) ==> len(d.Body.Elements[old(len(d.Body.Elements))].(*SectionProperties).HeaderReferences) == 1 && len(d.Body.Elements[old(len(d.Body.Elements))].(*SectionProperties).FooterReferences) == 0 && d.Body.Elements[old(len(d.Body.Elements))].(*SectionProperties).TitlePage == nil && hdrOneAt(d.Body.Elements[old(len(d.Body.Elements))].(*SectionProperties).HeaderReferences, 0, string(headerType), d.Body.Elements[old(len(d.Body.Elements))].(*SectionProperties).HeaderReferences[0].ID) && relResolves(d.documentRelationships.Relationships, d.Body.Elements[old(len(d.Body.Elements))].(*SectionProperties).HeaderReferences[0].ID, "http://schemas.openxmlformats.org/officeDocument/2006/relationships/header", hfFile("header", headerType))
+// (b) existing section settings without a reference of the kind: one fresh reference appended, the earlier entries stay
+//@ ensures err == nil ==> forall s *SectionProperties :: {s.HeaderReferences} allocated(s) && old(isFirstSect(d.Body.Elements, s)) && old(hdrNone(s.HeaderReferences, string(headerType))) ==> len(s.HeaderReferences) == old(len(s.HeaderReferences)) + 1 && fresh(s.HeaderReferences[old(len(s.HeaderReferences))]) && (forall q int :: 0 <= q && q < old(len(s.HeaderReferences)) ==> s.HeaderReferences[q] == old(s.HeaderReferences[q])) && hdrOneAt(s.HeaderReferences, old(len(s.HeaderReferences)), string(headerType), s.HeaderReferences[old(len(s.HeaderReferences))].ID) && relResolves(d.documentRelationships.Relationships, s.HeaderReferences[old(len(s.HeaderReferences))].ID, "http://schemas.openxmlformats.org/officeDocument/2006/relationships/header", hfFile("header", headerType))
+// (c) existing reference of the kind (the first one, at k): same list of the same objects, that reference now resolves to the
+//     part's relationship, no other reference changed its id; if the kind was referenced at most once it still is, exactly once
+//@ ensures err == nil ==> forall s *SectionProperties, k int :: {s.HeaderReferences[k]} allocated(s) && old(isFirstSect(d.Body.Elements, s)) && old(hdrFirstAt(s.HeaderReferences, k, string(headerType))) ==> len(s.HeaderReferences) == old(len(s.HeaderReferences)) && (forall q int :: 0 <= q && q < len(s.HeaderReferences) ==> s.HeaderReferences[q] == old(s.HeaderReferences[q])) && relResolves(d.documentRelationships.Relationships, s.HeaderReferences[k].ID, "http://schemas.openxmlformats.org/officeDocument/2006/relationships/header", hfFile("header", headerType))
+//@ ensures err == nil ==> forall s *SectionProperties, k int :: {s.HeaderReferences[k]} allocated(s) && old(isFirstSect(d.Body.Elements, s)) && old(hdrFirstAt(s.HeaderReferences, k, string(headerType))) ==> s.HeaderReferences[k] == old(s.HeaderReferences[k]) && (forall r *HeaderFooterReference :: allocated(r) && r != old(s.HeaderReferences[k]) ==> r.ID == old(r.ID))
+//@ ensures err == nil ==> forall s *SectionProperties, k int :: {s.HeaderReferences[k]} allocated(s) && old(isFirstSect(d.Body.Elements, s)) && old(hdrFirstAt(s.HeaderReferences, k, string(headerType))) && old(hdrAtMostOne(s.HeaderReferences, string(headerType))) ==> hdrOneAt(s.HeaderReferences, k, string(headerType), s.HeaderReferences[k].ID)
+//@ ensures err == nil && (old(noSect(d.Body.Elements)) || (forall s *SectionProperties :: allocated(s) && old(isFirstSect(d.Body.Elements, s)) ==> old(hdrNone(s.HeaderReferences, string(headerType))))) ==> forall r *HeaderFooterReference :: allocated(r) ==> r.ID == old(r.ID)
+// the other kinds, the footer references and every other section-properties object are untouched
+//@ ensures err == nil ==> forall s *SectionProperties :: {s.HeaderReferences} allocated(s) && old(isFirstSect(d.Body.Elements, s)) && string(headerType) != "default" && old(hdrAtMostOne(s.HeaderReferences, "default")) ==> hdrAtMostOne(s.HeaderReferences, "default")
+//@ ensures err == nil ==> forall s *SectionProperties :: {s.HeaderReferences} allocated(s) && old(isFirstSect(d.Body.Elements, s)) && string(headerType) != "first" && old(hdrAtMostOne(s.HeaderReferences, "first")) ==> hdrAtMostOne(s.HeaderReferences, "first")
+//@ ensures err == nil ==> forall s *SectionProperties :: {s.HeaderReferences} allocated(s) && old(isFirstSect(d.Body.Elements, s)) && string(headerType) != "even" && old(hdrAtMostOne(s.HeaderReferences, "even")) ==> hdrAtMostOne(s.HeaderReferences, "even")
+//@ ensures forall s *SectionProperties :: {s.HeaderReferences} allocated(s) && !old(isFirstSect(d.Body.Elements, s)) ==> s.HeaderReferences == old(s.HeaderReferences)
+//@ ensures forall s *SectionProperties :: {s.XmlnsR} allocated(s) && !old(isFirstSect(d.Body.Elements, s)) ==> s.XmlnsR == old(s.XmlnsR)
+//@ ensures forall s *SectionProperties :: {s.XmlnsR} allocated(s) && old(s.XmlnsR) != "" ==> s.XmlnsR == old(s.XmlnsR)
+//@ ensures unchangedExcept("map:string:[]byte", "Relationships.Relationships", "Relationship.*", "ContentTypes.Overrides", "Override.*", "Body.Elements", "cell:any", "SectionProperties.XmlnsR", "SectionProperties.HeaderReferences", "HeaderFooterReference.ID", "cell:*HeaderFooterReference")
+
+//@ func (*Document).AddFooter
+//@ props C11, C02
+//@ requires docParts(d) && elemsOK(d.Body.Elements)
+// failure (a kind that is not one of the three, or the serialiser reports an error): nothing has changed
+//@ ensures !validKind(footerType) ==> err != nil
+//@ ensures err != nil ==> unchangedHeap()
+//@ ensures err == nil ==> d.Body == old(d.Body) && d.parts == old(d.parts) && d.contentTypes == old(d.contentTypes) && d.documentRelationships == old(d.documentRelationships)
+// the part of the kind is (re)written, every other part stays
+//@ ensures err == nil ==> has(d.parts, "word/" + hfFile("footer", footerType))
+//@ ensures err == nil ==> forall k string :: k != "word/" + hfFile("footer", footerType) ==> has(d.parts, k) == old(has(d.parts, k)) && d.parts[k] == old(d.parts[k])
+// relationship of the part: found (list unchanged) or exactly one appended (fresh id, never "rId1"); earlier ones stay
+//@ ensures err == nil && !old(relNone(d.documentRelationships.Relationships, "http://schemas.openxmlformats.org/officeDocument/2006/relationships/footer", hfFile("footer", footerType))) ==> len(d.documentRelationships.Relationships) == old(len(d.documentRelationships.Relationships))
+//@ ensures err == nil && old(relNone(d.documentRelationships.Relationships, "http://schemas.openxmlformats.org/officeDocument/2006/relationships/footer", hfFile("footer", footerType))) ==> len(d.documentRelationships.Relationships) == old(len(d.documentRelationships.Relationships)) + 1 && d.documentRelationships.Relationships[old(len(d.documentRelationships.Relationships))].Type == "http://schemas.openxmlformats.org/officeDocument/2006/relationships/footer" && d.documentRelationships.Relationships[old(len(d.documentRelationships.Relationships))].Target == hfFile("footer", footerType) && d.documentRelationships.Relationships[old(len(d.documentRelationships.Relationships))].ID != "rId1"
+//@ ensures err == nil && old(relNone(d.documentRelationships.Relationships, "http://schemas.openxmlformats.org/officeDocument/2006/relationships/footer", hfFile("footer", footerType))) ==> forall j int :: 0 <= j && j < old(len(d.documentRelationships.Relationships)) ==> d.documentRelationships.Relationships[j].ID != d.documentRelationships.Relationships[old(len(d.documentRelationships.Relationships))].ID
+//@ ensures err == nil ==> forall j int :: 0 <= j && j < old(len(d.documentRelationships.Relationships)) ==> d.documentRelationships.Relationships[j] == old(d.documentRelationships.Relationships[j])
+//@ ensures err == nil && old(relIDsUnique(d.documentRelationships.Relationships)) ==> relIDsUnique(d.documentRelationships.Relationships)
+// content type of the part registered once; earlier overrides stay
+//@ ensures err == nil ==> ctHas(d.contentTypes.Overrides, "/" + ("word/" + hfFile("footer", footerType)))
+//@ ensures err == nil && old(ctHas(d.contentTypes.Overrides, "/" + ("word/" + hfFile("footer", footerType)))) ==> len(d.contentTypes.Overrides) == old(len(d.contentTypes.Overrides))
+//@ ensures err == nil && !old(ctHas(d.contentTypes.Overrides, "/" + ("word/" + hfFile("footer", footerType)))) ==> len(d.contentTypes.Overrides) == old(len(d.contentTypes.Overrides)) + 1 && d.contentTypes.Overrides[old(len(d.contentTypes.Overrides))].PartName == "/" + ("word/" + hfFile("footer", footerType)) && d.contentTypes.Overrides[old(len(d.contentTypes.Overrides))].ContentType == "application/vnd.openxmlformats-officedocument.wordprocessingml.footer+xml"
+//@ ensures err == nil ==> forall j int :: 0 <= j && j < old(len(d.contentTypes.Overrides)) ==> d.contentTypes.Overrides[j] == old(d.contentTypes.Overrides[j])
+// section settings found or created: never a second element, every other body element stays in place
+//@ ensures elemsOK(d.Body.Elements)
+//@ ensures err == nil && !old(noSect(d.Body.Elements)) ==> len(d.Body.Elements) == old(len(d.Body.Elements))
+//@ ensures err == nil && old(noSect(d.Body.Elements)) ==> len(d.Body.Elements) == old(len(d.Body.Elements)) + 1 && isSect(d.Body.Elements[old(len(d.Body.Elements))]) && fresh(d.Body.Elements[old(len(d.Body.Elements))].(*SectionProperties))
+//@ ensures err == nil ==> forall j int :: 0 <= j && j < old(len(d.Body.Elements)) ==> d.Body.Elements[j] == old(d.Body.Elements[j])
+// exactly one reference of the kind, and its id resolves to a relationship of the right type whose target is the kind's part:
+// (a) fresh section settings
+//@ ensures err == nil && old(noSect(d.Body.Elements)) ==> len(d.Body.Elements[old(len(d.Body.Elements))].(*SectionProperties).FooterReferences) == 1 && len(d.Body.Elements[old(len(d.Body.Elements))].(*SectionProperties).HeaderReferences) == 0 && d.Body.Elements[old(len(d.Body.Elements))].(*SectionProperties).TitlePage == nil && ftrOneAt(d.Body.Elements[old(len(d.Body.Elements))].(*SectionProperties).FooterReferences, 0, string(footerType), d.Body.Elements[old(len(d.Body.Elements))].(*SectionProperties).FooterReferences[0].ID) && relResolves(d.documentRelationships.Relationships, d.Body.Elements[old(len(d.Body.Elements))].(*SectionProperties).FooterReferences[0].ID, "http://schemas.openxmlformats.org/officeDocument/2006/relationships/footer", hfFile("footer", footerType))
+// (b) existing section settings without a reference of the kind: one fresh reference appended, the earlier entries stay
+//@ ensures err == nil ==> forall s *SectionProperties :: {s.FooterReferences} allocated(s) && old(isFirstSect(d.Body.Elements, s)) && old(ftrNone(s.FooterReferences, string(footerType))) ==> len(s.FooterReferences) == old(len(s.FooterReferences)) + 1 && fresh(s.FooterReferences[old(len(s.FooterReferences))]) && (forall q int :: 0 <= q && q < old(len(s.FooterReferences)) ==> s.FooterReferences[q] == old(s.FooterReferences[q])) && ftrOneAt(s.FooterReferences, old(len(s.FooterReferences)), string(footerType), s.FooterReferences[old(len(s.FooterReferences))].ID) && relResolves(d.documentRelationships.Relationships, s.FooterReferences[old(len(s.FooterReferences))].ID, "http://schemas.openxmlformats.org/officeDocument/2006/relationships/footer", hfFile("footer", footerType))
+// (c) existing reference of the kind (the first one, at k): same list of the same objects, that reference now resolves to the
+//     part's relationship, no other reference changed its id; if the kind was referenced at most once it still is, exactly once
+//@ ensures err == nil ==> forall s *SectionProperties, k int :: {s.FooterReferences[k]} allocated(s) && old(isFirstSect(d.Body.Elements, s)) && old(ftrFirstAt(s.FooterReferences, k, string(footerType))) ==> len(s.FooterReferences) == old(len(s.FooterReferences)) && (forall q int :: 0 <= q && q < len(s.FooterReferences) ==> s.FooterReferences[q] == old(s.FooterReferences[q])) && relResolves(d.documentRelationships.Relationships, s.FooterReferences[k].ID, "http://schemas.openxmlformats.org/officeDocument/2006/relationships/footer", hfFile("footer", footerType))
+//@ ensures err == nil ==> forall s *SectionProperties, k int :: {s.FooterReferences[k]} allocated(s) && old(isFirstSect(d.Body.Elements, s)) && old(ftrFirstAt(s.FooterReferences, k, string(footerType))) ==> s.FooterReferences[k] == old(s.FooterReferences[k]) && (forall r *FooterReference :: allocated(r) && r != old(s.FooterReferences[k]) ==> r.ID == old(r.ID))
+//@ ensures err == nil ==> forall s *SectionProperties, k int :: {s.FooterReferences[k]} allocated(s) && old(isFirstSect(d.Body.Elements, s)) && old(ftrFirstAt(s.FooterReferences, k, string(footerType))) && old(ftrAtMostOne(s.FooterReferences, string(footerType))) ==> ftrOneAt(s.FooterReferences, k, string(footerType), s.FooterReferences[k].ID)
+//@ ensures err == nil && (old(noSect(d.Body.Elements)) || (forall s *SectionProperties :: allocated(s) && old(isFirstSect(d.Body.Elements, s)) ==> old(ftrNone(s.FooterReferences, string(footerType))))) ==> forall r *FooterReference :: allocated(r) ==> r.ID == old(r.ID)
+// the other kinds, the header references and every other section-properties object are untouched
+//@ ensures err == nil ==> forall s *SectionProperties :: {s.FooterReferences} allocated(s) && old(isFirstSect(d.Body.Elements, s)) && string(footerType) != "default" && old(ftrAtMostOne(s.FooterReferences, "default")) ==> ftrAtMostOne(s.FooterReferences, "default")
+//@ ensures err == nil ==> forall s *SectionProperties :: {s.FooterReferences} allocated(s) && old(isFirstSect(d.Body.Elements, s)) && string(footerType) != "first" && old(ftrAtMostOne(s.FooterReferences, "first")) ==> ftrAtMostOne(s.FooterReferences, "first")
+//@ ensures err == nil ==> forall s *SectionProperties :: {s.FooterReferences} allocated(s) && old(isFirstSect(d.Body.Elements, s)) && string(footerType) != "even" && old(ftrAtMostOne(s.FooterReferences, "even")) ==> ftrAtMostOne(s.FooterReferences, "even")
+//@ ensures forall s *SectionProperties :: {s.FooterReferences} allocated(s) && !old(isFirstSect(d.Body.Elements, s)) ==> s.FooterReferences == old(s.FooterReferences)
+//@ ensures forall s *SectionProperties :: {s.XmlnsR} allocated(s) && !old(isFirstSect(d.Body.Elements, s)) ==> s.XmlnsR == old(s.XmlnsR)
+//@ ensures forall s *SectionProperties :: {s.XmlnsR} allocated(s) && old(s.XmlnsR) != "" ==> s.XmlnsR == old(s.XmlnsR)
+//@ ensures unchangedExcept("map:string:[]byte", "Relationships.Relationships", "Relationship.*", "ContentTypes.Overrides", "Override.*", "Body.Elements", "cell:any", "SectionProperties.XmlnsR", "SectionProperties.FooterReferences", "FooterReference.ID", "cell:*FooterReference")
+
+//@ func (*Document).AddHeaderWithPageNumber
+//@ props C11, C02
+//@ requires docParts(d) && elemsOK(d.Body.Elements)
+// failure (a kind that is not one of the three, or the serialiser reports an error): nothing has changed
+//@ ensures !validKind(headerType) ==> err != nil
+//@ ensures err != nil ==> unchangedHeap()
+//@ ensures err == nil ==> d.Body == old(d.Body) && d.parts == old(d.parts) && d.contentTypes == old(d.contentTypes) && d.documentRelationships == old(d.documentRelationships)
+// the part of the kind is (re)written, every other part stays
+//@ ensures err == nil ==> has(d.parts, "word/" + hfFile("header", headerType))
+//@ ensures err == nil ==> forall k string :: k != "word/" + hfFile("header", headerType) ==> has(d.parts, k) == old(has(d.parts, k)) && d.parts[k] == old(d.parts[k])
+// relationship of the part: found (list unchanged) or exactly one appended (fresh id, never "rId1"); earlier ones stay
+//@ ensures err == nil && !old(relNone(d.documentRelationships.Relationships, "http://schemas.openxmlformats.org/officeDocument/2006/relationships/header", hfFile("header", headerType))) ==> len(d.documentRelationships.Relationships) == old(len(d.documentRelationships.Relationships))
+//@ ensures err == nil && old(relNone(d.documentRelationships.Relationships, "http://schemas.openxmlformats.org/officeDocument/2006/relationships/header", hfFile("header", headerType))) ==> len(d.documentRelationships.Relationships) == old(len(d.documentRelationships.Relationships)) + 1 && d.documentRelationships.Relationships[old(len(d.documentRelationships.Relationships))].Type == "http://schemas.openxmlformats.org/officeDocument/2006/relationships/header" && d.documentRelationships.Relationships[old(len(d.documentRelationships.Relationships))].Target == hfFile("header", headerType) && d.documentRelationships.Relationships[old(len(d.documentRelationships.Relationships))].ID != "rId1"
+//@ ensures err == nil && old(relNone(d.documentRelationships.Relationships, "http://schemas.openxmlformats.org/officeDocument/2006/relationships/header", hfFile("header", headerType))) ==> forall j int :: 0 <= j && j < old(len(d.documentRelationships.Relationships)) ==> d.documentRelationships.Relationships[j].ID != d.documentRelationships.Relationships[old(len(d.documentRelationships.Relationships))].ID
+//@ ensures err == nil ==> forall j int :: 0 <= j && j < old(len(d.documentRelationships.Relationships)) ==> d.documentRelationships.Relationships[j] == old(d.documentRelationships.Relationships[j])
+//@ ensures err == nil && old(relIDsUnique(d.documentRelationships.Relationships)) ==> relIDsUnique(d.documentRelationships.Relationships)
+// content type of the part registered once; earlier overrides stay
+//@ ensures err == nil ==> ctHas(d.contentTypes.Overrides, "/" + ("word/" + hfFile("header", headerType)))
+//@ ensures err == nil && old(ctHas(d.contentTypes.Overrides, "/" + ("word/" + hfFile("header", headerType)))) ==> len(d.contentTypes.Overrides) == old(len(d.contentTypes.Overrides))
+//@ ensures err == nil && !old(ctHas(d.contentTypes.Overrides, "/" + ("word/" + hfFile("header", headerType)))) ==> len(d.contentTypes.Overrides) == old(len(d.contentTypes.Overrides)) + 1 && d.contentTypes.Overrides[old(len(d.contentTypes.Overrides))].PartName == "/" + ("word/" + hfFile("header", headerType)) && d.contentTypes.Overrides[old(len(d.contentTypes.Overrides))].ContentType == "application/vnd.openxmlformats-officedocument.wordprocessingml.header+xml"
+//@ ensures err == nil ==> forall j int :: 0 <= j && j < old(len(d.contentTypes.Overrides)) ==> d.contentTypes.Overrides[j] == old(d.contentTypes.Overrides[j])
+// section settings found or created: never a second element, every other body element stays in place
+//@ ensures elemsOK(d.Body.Elements)
+//@ ensures err == nil && !old(noSect(d.Body.Elements)) ==> len(d.Body.Elements) == old(len(d.Body.Elements))
+//@ ensures err == nil && old(noSect(d.Body.Elements)) ==> len(d.Body.Elements) == old(len(d.Body.Elements)) + 1 && isSect(d.Body.Elements[old(len(d.Body.Elements))]) && fresh(d.Body.Elements[old(len(d.Body.Elements))].(*SectionProperties))
+//@ ensures err == nil ==> forall j int :: 0 <= j && j < old(len(d.Body.Elements)) ==> d.Body.Elements[j] == old(d.Body.Elements[j])
+// exactly one reference of the kind, and its id resolves to a relationship of the right type whose target is the kind's part:
+// (a) fresh section settings
+//@ ensures err == nil && old(noSect(d.Body.Elements)) ==> len(d.Body.Elements[old(len(d.Body.Elements))].(*SectionProperties).HeaderReferences) == 1 && len(d.Body.Elements[old(len(d.Body.Elements))].(*SectionProperties).FooterReferences) == 0 && d.Body.Elements[old(len(d.Body.Elements))].(*SectionProperties).TitlePage == nil && hdrOneAt(d.Body.Elements[old(len(d.Body.Elements))].(*SectionProperties).HeaderReferences, 0, string(headerType), d.Body.Elements[old(len(d.Body.Elements))].(*SectionProperties).HeaderReferences[0].ID) && relResolves(d.documentRelationships.Relationships, d.Body.Elements[old(len(d.Body.Elements))].(*SectionProperties).HeaderReferences[0].ID, "http://schemas.openxmlformats.org/officeDocument/2006/relationships/header", hfFile("header", headerType))
+// (b) existing section settings without a reference of the kind: one fresh reference appended, the earlier entries stay
+//@ ensures err == nil ==> forall s *SectionProperties :: {s.HeaderReferences} allocated(s) && old(isFirstSect(d.Body.Elements, s)) && old(hdrNone(s.HeaderReferences, string(headerType))) ==> len(s.HeaderReferences) == old(len(s.HeaderReferences)) + 1 && fresh(s.HeaderReferences[old(len(s.HeaderReferences))]) && (forall q int :: 0 <= q && q < old(len(s.HeaderReferences)) ==> s.HeaderReferences[q] == old(s.HeaderReferences[q])) && hdrOneAt(s.HeaderReferences, old(len(s.HeaderReferences)), string(headerType), s.HeaderReferences[old(len(s.HeaderReferences))].ID) && relResolves(d.documentRelationships.Relationships, s.HeaderReferences[old(len(s.HeaderReferences))].ID, "http://schemas.openxmlformats.org/officeDocument/2006/relationships/header", hfFile("header", headerType))
+// (c) existing reference of the kind (the first one, at k): same list of the same objects, that reference now resolves to the
+//     part's relationship, no other reference changed its id; if the kind was referenced at most once it still is, exactly once
+//@ ensures err == nil ==> forall s *SectionProperties, k int :: {s.HeaderReferences[k]} allocated(s) && old(isFirstSect(d.Body.Elements, s)) && old(hdrFirstAt(s.HeaderReferences, k, string(headerType))) ==> len(s.HeaderReferences) == old(len(s.HeaderReferences)) && (forall q int :: 0 <= q && q < len(s.HeaderReferences) ==> s.HeaderReferences[q] == old(s.HeaderReferences[q])) && relResolves(d.documentRelationships.Relationships, s.HeaderReferences[k].ID, "http://schemas.openxmlformats.org/officeDocument/2006/relationships/header", hfFile("header", headerType))
+//@ ensures err == nil ==> forall s *SectionProperties, k int :: {s.HeaderReferences[k]} allocated(s) && old(isFirstSect(d.Body.Elements, s)) && old(hdrFirstAt(s.HeaderReferences, k, string(headerType))) ==> s.HeaderReferences[k] == old(s.HeaderReferences[k]) && (forall r *HeaderFooterReference :: allocated(r) && r != old(s.HeaderReferences[k]) ==> r.ID == old(r.ID))
+//@ ensures err == nil ==> forall s *SectionProperties, k int :: {s.HeaderReferences[k]} allocated(s) && old(isFirstSect(d.Body.Elements, s)) && old(hdrFirstAt(s.HeaderReferences, k, string(headerType))) && old(hdrAtMostOne(s.HeaderReferences, string(headerType))) ==> hdrOneAt(s.HeaderReferences, k, string(headerType), s.HeaderReferences[k].ID)
+//@ ensures err == nil && (old(noSect(d.Body.Elements)) || (forall s *SectionProperties :: allocated(s) && old(isFirstSect(d.Body.Elements, s)) ==> old(hdrNone(s.HeaderReferences, string(headerType))))) ==> forall r *HeaderFooterReference :: allocated(r) ==> r.ID == old(r.ID)
+// the other kinds, the footer references and every other section-properties object are untouched
+//@ ensures err == nil ==> forall s *SectionProperties :: {s.HeaderReferences} allocated(s) && old(isFirstSect(d.Body.Elements, s)) && string(headerType) != "default" && old(hdrAtMostOne(s.HeaderReferences, "default")) ==> hdrAtMostOne(s.HeaderReferences, "default")
+//@ ensures err == nil ==> forall s *SectionProperties :: {s.HeaderReferences} allocated(s) && old(isFirstSect(d.Body.Elements, s)) && string(headerType) != "first" && old(hdrAtMostOne(s.HeaderReferences, "first")) ==> hdrAtMostOne(s.HeaderReferences, "first")
+//@ ensures err == nil ==> forall s *SectionProperties :: {s.HeaderReferences} allocated(s) && old(isFirstSect(d.Body.Elements, s)) && string(headerType) != "even" && old(hdrAtMostOne(s.HeaderReferences, "even")) ==> hdrAtMostOne(s.HeaderReferences, "even")
+//@ ensures forall s *SectionProperties :: {s.HeaderReferences} allocated(s) && !old(isFirstSect(d.Body.Elements, s)) ==> s.HeaderReferences == old(s.HeaderReferences)
+//@ ensures forall s *SectionProperties :: {s.XmlnsR} allocated(s) && !old(isFirstSect(d.Body.Elements, s)) ==> s.XmlnsR == old(s.XmlnsR)
+//@ ensures forall s *SectionProperties :: {s.XmlnsR} allocated(s) && old(s.XmlnsR) != "" ==> s.XmlnsR == old(s.XmlnsR)
+//@ ensures unchangedExcept("map:string:[]byte", "Relationships.Relationships", "Relationship.*", "ContentTypes.Overrides", "Override.*", "Body.Elements", "cell:any", "SectionProperties.XmlnsR", "SectionProperties.HeaderReferences", "HeaderFooterReference.ID", "cell:*HeaderFooterReference")
+
+//@ func (*Document).AddFooterWithPageNumber
+//@ props C11, C02
+//@ requires docParts(d) && elemsOK(d.Body.Elements)
+// failure (a kind that is not one of the three, or the serialiser reports an error): nothing has changed
+//@ ensures !validKind(footerType) ==> err != nil
+//@ ensures err != nil ==> unchangedHeap()
+//@ ensures err == nil ==> d.Body == old(d.Body) && d.parts == old(d.parts) && d.contentTypes == old(d.contentTypes) && d.documentRelationships == old(d.documentRelationships)
+// the part of the kind is (re)written, every other part stays
+//@ ensures err == nil ==> has(d.parts, "word/" + hfFile("footer", footerType))
+//@ ensures err == nil ==> forall k string :: k != "word/" + hfFile("footer", footerType) ==> has(d.parts, k) == old(has(d.parts, k)) && d.parts[k] == old(d.parts[k])
+// relationship of the part: found (list unchanged) or exactly one appended (fresh id, never "rId1"); earlier ones stay
+//@ ensures err == nil && !old(relNone(d.documentRelationships.Relationships, "http://schemas.openxmlformats.org/officeDocument/2006/relationships/footer", hfFile("footer", footerType))) ==> len(d.documentRelationships.Relationships) == old(len(d.documentRelationships.Relationships))
+//@ ensures err == nil && old(relNone(d.documentRelationships.Relationships, "http://schemas.openxmlformats.org/officeDocument/2006/relationships/footer", hfFile("footer", footerType))) ==> len(d.documentRelationships.Relationships) == old(len(d.documentRelationships.Relationships)) + 1 && d.documentRelationships.Relationships[old(len(d.documentRelationships.Relationships))].Type == "http://schemas.openxmlformats.org/officeDocument/2006/relationships/footer" && d.documentRelationships.Relationships[old(len(d.documentRelationships.Relationships))].Target == hfFile("footer", footerType) && d.documentRelationships.Relationships[old(len(d.documentRelationships.Relationships))].ID != "rId1"
+//@ ensures err == nil && old(relNone(d.documentRelationships.Relationships, "http://schemas.openxmlformats.org/officeDocument/2006/relationships/footer", hfFile("footer", footerType))) ==> forall j int :: 0 <= j && j < old(len(d.documentRelationships.Relationships)) ==> d.documentRelationships.Relationships[j].ID != d.documentRelationships.Relationships[old(len(d.documentRelationships.Relationships))].ID
+//@ ensures err == nil ==> forall j int :: 0 <= j && j < old(len(d.documentRelationships.Relationships)) ==> d.documentRelationships.Relationships[j] == old(d.documentRelationships.Relationships[j])
+//@ ensures err == nil && old(relIDsUnique(d.documentRelationships.Relationships)) ==> relIDsUnique(d.documentRelationships.Relationships)
+// content type of the part registered once; earlier overrides stay
+//@ ensures err == nil ==> ctHas(d.contentTypes.Overrides, "/" + ("word/" + hfFile("footer", footerType)))
+//@ ensures err == nil && old(ctHas(d.contentTypes.Overrides, "/" + ("word/" + hfFile("footer", footerType)))) ==> len(d.contentTypes.Overrides) == old(len(d.contentTypes.Overrides))
+//@ ensures err == nil && !old(ctHas(d.contentTypes.Overrides, "/" + ("word/" + hfFile("footer", footerType)))) ==> len(d.contentTypes.Overrides) == old(len(d.contentTypes.Overrides)) + 1 && d.contentTypes.Overrides[old(len(d.contentTypes.Overrides))].PartName == "/" + ("word/" + hfFile("footer", footerType)) && d.contentTypes.Overrides[old(len(d.contentTypes.Overrides))].ContentType == "application/vnd.openxmlformats-officedocument.wordprocessingml.footer+xml"
+//@ ensures err == nil ==> forall j int :: 0 <= j && j < old(len(d.contentTypes.Overrides)) ==> d.contentTypes.Overrides[j] == old(d.contentTypes.Overrides[j])
+// section settings found or created: never a second element, every other body element stays in place
+//@ ensures elemsOK(d.Body.Elements)
+//@ ensures err == nil && !old(noSect(d.Body.Elements)) ==> len(d.Body.Elements) == old(len(d.Body.Elements))
+//@ ensures err == nil && old(noSect(d.Body.Elements)) ==> len(d.Body.Elements) == old(len(d.Body.Elements)) + 1 && isSect(d.Body.Elements[old(len(d.Body.Elements))]) && fresh(d.Body.Elements[old(len(d.Body.Elements))].(*SectionProperties))
+//@ ensures err == nil ==> forall j int :: 0 <= j && j < old(len(d.Body.Elements)) ==> d.Body.Elements[j] == old(d.Body.Elements[j])
+// exactly one reference of the kind, and its id resolves to a relationship of the right type whose target is the kind's part:
+// (a) fresh section settings
+//@ ensures err == nil && old(noSect(d.Body.Elements)) ==> len(d.Body.Elements[old(len(d.Body.Elements))].(*SectionProperties).FooterReferences) == 1 && len(d.Body.Elements[old(len(d.Body.Elements))].(*SectionProperties).HeaderReferences) == 0 && d.Body.Elements[old(len(d.Body.Elements))].(*SectionProperties).TitlePage == nil && ftrOneAt(d.Body.Elements[old(len(d.Body.Elements))].(*SectionProperties).FooterReferences, 0, string(footerType), d.Body.Elements[old(len(d.Body.Elements))].(*SectionProperties).FooterReferences[0].ID) && relResolves(d.documentRelationships.Relationships, d.Body.Elements[old(len(d.Body.Elements))].(*SectionProperties).FooterReferences[0].ID, "http://schemas.openxmlformats.org/officeDocument/2006/relationships/footer", hfFile("footer", footerType))
+// (b) existing section settings without a reference of the kind: one fresh reference appended, the earlier entries stay
+//@ ensures err == nil ==> forall s *SectionProperties :: {s.FooterReferences} allocated(s) && old(isFirstSect(d.Body.Elements, s)) && old(ftrNone(s.FooterReferences, string(footerType))) ==> len(s.FooterReferences) == old(len(s.FooterReferences)) + 1 && fresh(s.FooterReferences[old(len(s.FooterReferences))]) && (forall q int :: 0 <= q && q < old(len(s.FooterReferences)) ==> s.FooterReferences[q] == old(s.FooterReferences[q])) && ftrOneAt(s.FooterReferences, old(len(s.FooterReferences)), string(footerType), s.FooterReferences[old(len(s.FooterReferences))].ID) && relResolves(d.documentRelationships.Relationships, s.FooterReferences[old(len(s.FooterReferences))].ID, "http://schemas.openxmlformats.org/officeDocument/2006/relationships/footer", hfFile("footer", footerType))
+// (c) existing reference of the kind (the first one, at k): same list of the same objects, that reference now resolves to the
+//     part's relationship, no other reference changed its id; if the kind was referenced at most once it still is, exactly once
+//@ ensures err == nil ==> forall s *SectionProperties, k int :: {s.FooterReferences[k]} allocated(s) && old(isFirstSect(d.Body.Elements, s)) && old(ftrFirstAt(s.FooterReferences, k, string(footerType))) ==> len(s.FooterReferences) == old(len(s.FooterReferences)) && (forall q int :: 0 <= q && q < len(s.FooterReferences) ==> s.FooterReferences[q] == old(s.FooterReferences[q])) && relResolves(d.documentRelationships.Relationships, s.FooterReferences[k].ID, "http://schemas.openxmlformats.org/officeDocument/2006/relationships/footer", hfFile("footer", footerType))
+//@ ensures err == nil ==> forall s *SectionProperties, k int :: {s.FooterReferences[k]} allocated(s) && old(isFirstSect(d.Body.Elements, s)) && old(ftrFirstAt(s.FooterReferences, k, string(footerType))) ==> s.FooterReferences[k] == old(s.FooterReferences[k]) && (forall r *FooterReference :: allocated(r) && r != old(s.FooterReferences[k]) ==> r.ID == old(r.ID))
+//@ ensures err == nil ==> forall s *SectionProperties, k int :: {s.FooterReferences[k]} allocated(s) && old(isFirstSect(d.Body.Elements, s)) && old(ftrFirstAt(s.FooterReferences, k, string(footerType))) && old(ftrAtMostOne(s.FooterReferences, string(footerType))) ==> ftrOneAt(s.FooterReferences, k, string(footerType), s.FooterReferences[k].ID)
+//@ ensures err == nil && (old(noSect(d.Body.Elements)) || (forall s *SectionProperties :: allocated(s) && old(isFirstSect(d.Body.Elements, s)) ==> old(ftrNone(s.FooterReferences, string(footerType))))) ==> forall r *FooterReference :: allocated(r) ==> r.ID == old(r.ID)
+// the other kinds, the header references and every other section-properties object are untouched
+//@ ensures err == nil ==> forall s *SectionProperties :: {s.FooterReferences} allocated(s) && old(isFirstSect(d.Body.Elements, s)) && string(footerType) != "default" && old(ftrAtMostOne(s.FooterReferences, "default")) ==> ftrAtMostOne(s.FooterReferences, "default")
+//@ ensures err == nil ==> forall s *SectionProperties :: {s.FooterReferences} allocated(s) && old(isFirstSect(d.Body.Elements, s)) && string(footerType) != "first" && old(ftrAtMostOne(s.FooterReferences, "first")) ==> ftrAtMostOne(s.FooterReferences, "first")
+//@ ensures err == nil ==> forall s *SectionProperties :: {s.FooterReferences} allocated(s) && old(isFirstSect(d.Body.Elements, s)) && string(footerType) != "even" && old(ftrAtMostOne(s.FooterReferences, "even")) ==> ftrAtMostOne(s.FooterReferences, "even")
+//@ ensures forall s *SectionProperties :: {s.FooterReferences} allocated(s) && !old(isFirstSect(d.Body.Elements, s)) ==> s.FooterReferences == old(s.FooterReferences)
+//@ ensures forall s *SectionProperties :: {s.XmlnsR} allocated(s) && !old(isFirstSect(d.Body.Elements, s)) ==> s.XmlnsR == old(s.XmlnsR)
+//@ ensures forall s *SectionProperties :: {s.XmlnsR} allocated(s) && old(s.XmlnsR) != "" ==> s.XmlnsR == old(s.XmlnsR)
+//@ ensures unchangedExcept("map:string:[]byte", "Relationships.Relationships", "Relationship.*", "ContentTypes.Overrides", "Override.*", "Body.Elements", "cell:any", "SectionProperties.XmlnsR", "SectionProperties.FooterReferences", "FooterReference.ID", "cell:*FooterReference")
+
+//@ func (*Document).AddFormattedHeader
+//@ props C11, C02
+//@ requires docParts(d) && elemsOK(d.Body.Elements)
+// failure (a kind that is not one of the three, or the serialiser reports an error): nothing has changed
+//@ ensures !validKind(headerType) ==> err != nil
+//@ ensures err != nil ==> unchangedHeap()
+//@ ensures err == nil ==> d.Body == old(d.Body) && d.parts == old(d.parts) && d.contentTypes == old(d.contentTypes) && d.documentRelationships == old(d.documentRelationships)
+// the part of the kind is (re)written, every other part stays
+//@ ensures err == nil ==> has(d.parts, "word/" + hfFile("header", headerType))
+//@ ensures err == nil ==> forall k string :: k != "word/" + hfFile("header", headerType) ==> has(d.parts, k) == old(has(d.parts, k)) && d.parts[k] == old(d.parts[k])
+// relationship of the part: found (list unchanged) or exactly one appended (fresh id, never "rId1"); earlier ones stay
+//@ ensures err == nil && !old(relNone(d.documentRelationships.Relationships, "http://schemas.openxmlformats.org/officeDocument/2006/relationships/header", hfFile("header", headerType))) ==> len(d.documentRelationships.Relationships) == old(len(d.documentRelationships.Relationships))
+//@ ensures err == nil && old(relNone(d.documentRelationships.Relationships, "http://schemas.openxmlformats.org/officeDocument/2006/relationships/header", hfFile("header", headerType))) ==> len(d.documentRelationships.Relationships) == old(len(d.documentRelationships.Relationships)) + 1 && d.documentRelationships.Relationships[old(len(d.documentRelationships.Relationships))].Type == "http://schemas.openxmlformats.org/officeDocument/2006/relationships/header" && d.documentRelationships.Relationships[old(len(d.documentRelationships.Relationships))].Target == hfFile("header", headerType) && d.documentRelationships.Relationships[old(len(d.documentRelationships.Relationships))].ID != "rId1"
+//@ ensures err == nil && old(relNone(d.documentRelationships.Relationships, "http://schemas.openxmlformats.org/officeDocument/2006/relationships/header", hfFile("header", headerType))) ==> forall j int :: 0 <= j && j < old(len(d.documentRelationships.Relationships)) ==> d.documentRelationships.Relationships[j].ID != d.documentRelationships.Relationships[old(len(d.documentRelationships.Relationships))].ID
+//@ ensures err == nil ==> forall j int :: 0 <= j && j < old(len(d.documentRelationships.Relationships)) ==> d.documentRelationships.Relationships[j] == old(d.documentRelationships.Relationships[j])
+//@ ensures err == nil && old(relIDsUnique(d.documentRelationships.Relationships)) ==> relIDsUnique(d.documentRelationships.Relationships)
+// content type of the part registered once; earlier overrides stay
+//@ ensures err == nil ==> ctHas(d.contentTypes.Overrides, "/" + ("word/" + hfFile("header", headerType)))
+//@ ensures err == nil && old(ctHas(d.contentTypes.Overrides, "/" + ("word/" + hfFile("header", headerType)))) ==> len(d.contentTypes.Overrides) == old(len(d.contentTypes.Overrides))
+//@ ensures err == nil && !old(ctHas(d.contentTypes.Overrides, "/" + ("word/" + hfFile("header", headerType)))) ==> len(d.contentTypes.Overrides) == old(len(d.contentTypes.Overrides)) + 1 && d.contentTypes.Overrides[old(len(d.contentTypes.Overrides))].PartName == "/" + ("word/" + hfFile("header", headerType)) && d.contentTypes.Overrides[old(len(d.contentTypes.Overrides))].ContentType == "application/vnd.openxmlformats-officedocument.wordprocessingml.header+xml"
+//@ ensures err == nil ==> forall j int :: 0 <= j && j < old(len(d.contentTypes.Overrides)) ==> d.contentTypes.Overrides[j] == old(d.contentTypes.Overrides[j])
+// section settings found or created: never a second element, every other body element stays in place
+//@ ensures elemsOK(d.Body.Elements)
+//@ ensures err == nil && !old(noSect(d.Body.Elements)) ==> len(d.Body.Elements) == old(len(d.Body.Elements))
+//@ ensures err == nil && old(noSect(d.Body.Elements)) ==> len(d.Body.Elements) == old(len(d.Body.Elements)) + 1 && isSect(d.Body.Elements[old(len(d.Body.Elements))]) && fresh(d.Body.Elements[old(len(d.Body.Elements))].(*SectionProperties))
+//@ ensures err == nil ==> forall j int :: 0 <= j && j < old(len(d.Body.Elements)) ==> d.Body.Elements[j] == old(d.Body.Elements[j])
+// exactly one reference of the kind, and its id resolves to a relationship of the right type whose target is the kind's part:
+// (a) fresh section settings
+//@ ensures err == nil && old(noSect(d.Body.Elements)) ==> len(d.Body.Elements[old(len(d.Body.Elements))].(*SectionProperties).HeaderReferences) == 1 && len(d.Body.Elements[old(len(d.Body.Elements))].(*SectionProperties).FooterReferences) == 0 && d.Body.Elements[old(len(d.Body.Elements))].(*SectionProperties).TitlePage == nil && hdrOneAt(d.Body.Elements[old(len(d.Body.Elements))].(*SectionProperties).HeaderReferences, 0, string(headerType), d.Body.Elements[old(len(d.Body.Elements))].(*SectionProperties).HeaderReferences[0].ID) && relResolves(d.documentRelationships.Relationships, d.Body.Elements[old(len(d.Body.Elements))].(*SectionProperties).HeaderReferences[0].ID, "http://schemas.openxmlformats.org/officeDocument/2006/relationships/header", hfFile("header", headerType))
+// (b) existing section settings without a reference of the kind: one fresh reference appended, the earlier entries stay
+//@ ensures err == nil ==> forall s *SectionProperties :: {s.HeaderReferences} allocated(s) && old(isFirstSect(d.Body.Elements, s)) && old(hdrNone(s.HeaderReferences, string(headerType))) ==> len(s.HeaderReferences) == old(len(s.HeaderReferences)) + 1 && fresh(s.HeaderReferences[old(len(s.HeaderReferences))]) && (forall q int :: 0 <= q && q < old(len(s.HeaderReferences)) ==> s.HeaderReferences[q] == old(s.HeaderReferences[q])) && hdrOneAt(s.HeaderReferences, old(len(s.HeaderReferences)), string(headerType), s.HeaderReferences[old(len(s.HeaderReferences))].ID) && relResolves(d.documentRelationships.Relationships, s.HeaderReferences[old(len(s.HeaderReferences))].ID, "http://schemas.openxmlformats.org/officeDocument/2006/relationships/header", hfFile("header", headerType))
+// (c) existing reference of the kind (the first one, at k): same list of the same objects, that reference now resolves to the
+//     part's relationship, no other reference changed its id; if the kind was referenced at most once it still is, exactly once
+//@ ensures err == nil ==> forall s *SectionProperties, k int :: {s.HeaderReferences[k]} allocated(s) && old(isFirstSect(d.Body.Elements, s)) && old(hdrFirstAt(s.HeaderReferences, k, string(headerType))) ==> len(s.HeaderReferences) == old(len(s.HeaderReferences)) && (forall q int :: 0 <= q && q < len(s.HeaderReferences) ==> s.HeaderReferences[q] == old(s.HeaderReferences[q])) && relResolves(d.documentRelationships.Relationships, s.HeaderReferences[k].ID, "http://schemas.openxmlformats.org/officeDocument/2006/relationships/header", hfFile("header", headerType))
+//@ ensures err == nil ==> forall s *SectionProperties, k int :: {s.HeaderReferences[k]} allocated(s) && old(isFirstSect(d.Body.Elements, s)) && old(hdrFirstAt(s.HeaderReferences, k, string(headerType))) ==> s.HeaderReferences[k] == old(s.HeaderReferences[k]) && (forall r *HeaderFooterReference :: allocated(r) && r != old(s.HeaderReferences[k]) ==> r.ID == old(r.ID))
+//@ ensures err == nil ==> forall s *SectionProperties, k int :: {s.HeaderReferences[k]} allocated(s) && old(isFirstSect(d.Body.Elements, s)) && old(hdrFirstAt(s.HeaderReferences, k, string(headerType))) && old(hdrAtMostOne(s.HeaderReferences, string(headerType))) ==> hdrOneAt(s.HeaderReferences, k, string(headerType), s.HeaderReferences[k].ID)
+//@ ensures err == nil && (old(noSect(d.Body.Elements)) || (forall s *SectionProperties :: allocated(s) && old(isFirstSect(d.Body.Elements, s)) ==> old(hdrNone(s.HeaderReferences, string(headerType))))) ==> forall r *HeaderFooterReference :: allocated(r) ==> r.ID == old(r.ID)
+// the other kinds, the footer references and every other section-properties object are untouched
+//@ ensures err == nil ==> forall s *SectionProperties :: {s.HeaderReferences} allocated(s) && old(isFirstSect(d.Body.Elements, s)) && string(headerType) != "default" && old(hdrAtMostOne(s.HeaderReferences, "default")) ==> hdrAtMostOne(s.HeaderReferences, "default")
+//@ ensures err == nil ==> forall s *SectionProperties :: {s.HeaderReferences} allocated(s) && old(isFirstSect(d.Body.Elements, s)) && string(headerType) != "first" && old(hdrAtMostOne(s.HeaderReferences, "first")) ==> hdrAtMostOne(s.HeaderReferences, "first")
+//@ ensures err == nil ==> forall s *SectionProperties :: {s.HeaderReferences} allocated(s) && old(isFirstSect(d.Body.Elements, s)) && string(headerType) != "even" && old(hdrAtMostOne(s.HeaderReferences, "even")) ==> hdrAtMostOne(s.HeaderReferences, "even")
+//@ ensures forall s *SectionProperties :: {s.HeaderReferences} allocated(s) && !old(isFirstSect(d.Body.Elements, s)) ==> s.HeaderReferences == old(s.HeaderReferences)
+//@ ensures forall s *SectionProperties :: {s.XmlnsR} allocated(s) && !old(isFirstSect(d.Body.Elements, s)) ==> s.XmlnsR == old(s.XmlnsR)
+//@ ensures forall s *SectionProperties :: {s.XmlnsR} allocated(s) && old(s.XmlnsR) != "" ==> s.XmlnsR == old(s.XmlnsR)
+//@ ensures unchangedExcept("map:string:[]byte", "Relationships.Relationships", "Relationship.*", "ContentTypes.Overrides", "Override.*", "Body.Elements", "cell:any", "SectionProperties.XmlnsR", "SectionProperties.HeaderReferences", "HeaderFooterReference.ID", "cell:*HeaderFooterReference")
+
+//@ func (*Document).AddFormattedFooter
+//@ props C11, C02
+//@ requires docParts(d) && elemsOK(d.Body.Elements)
+// failure (a kind that is not one of the three, or the serialiser reports an error): nothing has changed
+//@ ensures !validKind(footerType) ==> err != nil
+//@ ensures err != nil ==> unchangedHeap()
+//@ ensures err == nil ==> d.Body == old(d.Body) && d.parts == old(d.parts) && d.contentTypes == old(d.contentTypes) && d.documentRelationships == old(d.documentRelationships)
+// the part of the kind is (re)written, every other part stays
+//@ ensures err == nil ==> has(d.parts, "word/" + hfFile("footer", footerType))
+//@ ensures err == nil ==> forall k string :: k != "word/" + hfFile("footer", footerType) ==> has(d.parts, k) == old(has(d.parts, k)) && d.parts[k] == old(d.parts[k])
+// relationship of the part: found (list unchanged) or exactly one appended (fresh id, never "rId1"); earlier ones stay
+//@ ensures err == nil && !old(relNone(d.documentRelationships.Relationships, "http://schemas.openxmlformats.org/officeDocument/2006/relationships/footer", hfFile("footer", footerType))) ==> len(d.documentRelationships.Relationships) == old(len(d.documentRelationships.Relationships))
+//@ ensures err == nil && old(relNone(d.documentRelationships.Relationships, "http://schemas.openxmlformats.org/officeDocument/2006/relationships/footer", hfFile("footer", footerType))) ==> len(d.documentRelationships.Relationships) == old(len(d.documentRelationships.Relationships)) + 1 && d.documentRelationships.Relationships[old(len(d.documentRelationships.Relationships))].Type == "http://schemas.openxmlformats.org/officeDocument/2006/relationships/footer" && d.documentRelationships.Relationships[old(len(d.documentRelationships.Relationships))].Target == hfFile("footer", footerType) && d.documentRelationships.Relationships[old(len(d.documentRelationships.Relationships))].ID != "rId1"
+//@ ensures err == nil && old(relNone(d.documentRelationships.Relationships, "http://schemas.openxmlformats.org/officeDocument/2006/relationships/footer", hfFile("footer", footerType))) ==> forall j int :: 0 <= j && j < old(len(d.documentRelationships.Relationships)) ==> d.documentRelationships.Relationships[j].ID != d.documentRelationships.Relationships[old(len(d.documentRelationships.Relationships))].ID
+//@ ensures err == nil ==> forall j int :: 0 <= j && j < old(len(d.documentRelationships.Relationships)) ==> d.documentRelationships.Relationships[j] == old(d.documentRelationships.Relationships[j])
+//@ ensures err == nil && old(relIDsUnique(d.documentRelationships.Relationships)) ==> relIDsUnique(d.documentRelationships.Relationships)
+// content type of the part registered once; earlier overrides stay
+//@ ensures err == nil ==> ctHas(d.contentTypes.Overrides, "/" + ("word/" + hfFile("footer", footerType)))
+//@ ensures err == nil && old(ctHas(d.contentTypes.Overrides, "/" + ("word/" + hfFile("footer", footerType)))) ==> len(d.contentTypes.Overrides) == old(len(d.contentTypes.Overrides))
+//@ ensures err == nil && !old(ctHas(d.contentTypes.Overrides, "/" + ("word/" + hfFile("footer", footerType)))) ==> len(d.contentTypes.Overrides) == old(len(d.contentTypes.Overrides)) + 1 && d.contentTypes.Overrides[old(len(d.contentTypes.Overrides))].PartName == "/" + ("word/" + hfFile("footer", footerType)) && d.contentTypes.Overrides[old(len(d.contentTypes.Overrides))].ContentType == "application/vnd.openxmlformats-officedocument.wordprocessingml.footer+xml"
+//@ ensures err == nil ==> forall j int :: 0 <= j && j < old(len(d.contentTypes.Overrides)) ==> d.contentTypes.Overrides[j] == old(d.contentTypes.Overrides[j])
+// section settings found or created: never a second element, every other body element stays in place
+//@ ensures elemsOK(d.Body.Elements)
+//@ ensures err == nil && !old(noSect(d.Body.Elements)) ==> len(d.Body.Elements) == old(len(d.Body.Elements))
+//@ ensures err == nil && old(noSect(d.Body.Elements)) ==> len(d.Body.Elements) == old(len(d.Body.Elements)) + 1 && isSect(d.Body.Elements[old(len(d.Body.Elements))]) && fresh(d.Body.Elements[old(len(d.Body.Elements))].(*SectionProperties))
+//@ ensures err == nil ==> forall j int :: 0 <= j && j < old(len(d.Body.Elements)) ==> d.Body.Elements[j] == old(d.Body.Elements[j])
+// exactly one reference of the kind, and its id resolves to a relationship of the right type whose target is the kind's part:
+// (a) fresh section settings
+//@ ensures err == nil && old(noSect(d.Body.Elements)) ==> len(d.Body.Elements[old(len(d.Body.Elements))].(*SectionProperties).FooterReferences) == 1 && len(d.Body.Elements[old(len(d.Body.Elements))].(*SectionProperties).HeaderReferences) == 0 && d.Body.Elements[old(len(d.Body.Elements))].(*SectionProperties).TitlePage == nil && ftrOneAt(d.Body.Elements[old(len(d.Body.Elements))].(*SectionProperties).FooterReferences, 0, string(footerType), d.Body.Elements[old(len(d.Body.Elements))].(*SectionProperties).FooterReferences[0].ID) && relResolves(d.documentRelationships.Relationships, d.Body.Elements[old(len(d.Body.Elements))].(*SectionProperties).FooterReferences[0].ID, "http://schemas.openxmlformats.org/officeDocument/2006/relationships/footer", hfFile("footer", footerType))
+// (b) existing section settings without a reference of the kind: one fresh reference appended, the earlier entries stay
+//@ ensures err == nil ==> forall s *SectionProperties :: {s.FooterReferences} allocated(s) && old(isFirstSect(d.Body.Elements, s)) && old(ftrNone(s.FooterReferences, string(footerType))) ==> len(s.FooterReferences) == old(len(s.FooterReferences)) + 1 && fresh(s.FooterReferences[old(len(s.FooterReferences))]) && (forall q int :: 0 <= q && q < old(len(s.FooterReferences)) ==> s.FooterReferences[q] == old(s.FooterReferences[q])) && ftrOneAt(s.FooterReferences, old(len(s.FooterReferences)), string(footerType), s.FooterReferences[old(len(s.FooterReferences))].ID) && relResolves(d.documentRelationships.Relationships, s.FooterReferences[old(len(s.FooterReferences))].ID, "http://schemas.openxmlformats.org/officeDocument/2006/relationships/footer", hfFile("footer", footerType))
+// (c) existing reference of the kind (the first one, at k): same list of the same objects, that reference now resolves to the
+//     part's relationship, no other reference changed its id; if the kind was referenced at most once it still is, exactly once
+//@ ensures err == nil ==> forall s *SectionProperties, k int :: {s.FooterReferences[k]} allocated(s) && old(isFirstSect(d.Body.Elements, s)) && old(ftrFirstAt(s.FooterReferences, k, string(footerType))) ==> len(s.FooterReferences) == old(len(s.FooterReferences)) && (forall q int :: 0 <= q && q < len(s.FooterReferences) ==> s.FooterReferences[q] == old(s.FooterReferences[q])) && relResolves(d.documentRelationships.Relationships, s.FooterReferences[k].ID, "http://schemas.openxmlformats.org/officeDocument/2006/relationships/footer", hfFile("footer", footerType))
+//@ ensures err == nil ==> forall s *SectionProperties, k int :: {s.FooterReferences[k]} allocated(s) && old(isFirstSect(d.Body.Elements, s)) && old(ftrFirstAt(s.FooterReferences, k, string(footerType))) ==> s.FooterReferences[k] == old(s.FooterReferences[k]) && (forall r *FooterReference :: allocated(r) && r != old(s.FooterReferences[k]) ==> r.ID == old(r.ID))
+//@ ensures err == nil ==> forall s *SectionProperties, k int :: {s.FooterReferences[k]} allocated(s) && old(isFirstSect(d.Body.Elements, s)) && old(ftrFirstAt(s.FooterReferences, k, string(footerType))) && old(ftrAtMostOne(s.FooterReferences, string(footerType))) ==> ftrOneAt(s.FooterReferences, k, string(footerType), s.FooterReferences[k].ID)
+//@ ensures err == nil && (old(noSect(d.Body.Elements)) || (forall s *SectionProperties :: allocated(s) && old(isFirstSect(d.Body.Elements, s)) ==> old(ftrNone(s.FooterReferences, string(footerType))))) ==> forall r *FooterReference :: allocated(r) ==> r.ID == old(r.ID)
+// the other kinds, the header references and every other section-properties object are untouched
+//@ ensures err == nil ==> forall s *SectionProperties :: {s.FooterReferences} allocated(s) && old(isFirstSect(d.Body.Elements, s)) && string(footerType) != "default" && old(ftrAtMostOne(s.FooterReferences, "default")) ==> ftrAtMostOne(s.FooterReferences, "default")
+//@ ensures err == nil ==> forall s *SectionProperties :: {s.FooterReferences} allocated(s) && old(isFirstSect(d.Body.Elements, s)) && string(footerType) != "first" && old(ftrAtMostOne(s.FooterReferences, "first")) ==> ftrAtMostOne(s.FooterReferences, "first")
+//@ ensures err == nil ==> forall s *SectionProperties :: {s.FooterReferences} allocated(s) && old(isFirstSect(d.Body.Elements, s)) && string(footerType) != "even" && old(ftrAtMostOne(s.FooterReferences, "even")) ==> ftrAtMostOne(s.FooterReferences, "even")
+//@ ensures forall s *SectionProperties :: {s.FooterReferences} allocated(s) && !old(isFirstSect(d.Body.Elements, s)) ==> s.FooterReferences == old(s.FooterReferences)
+//@ ensures forall s *SectionProperties :: {s.XmlnsR} allocated(s) && !old(isFirstSect(d.Body.Elements, s)) ==> s.XmlnsR == old(s.XmlnsR)
+//@ ensures forall s *SectionProperties :: {s.XmlnsR} allocated(s) && old(s.XmlnsR) != "" ==> s.XmlnsR == old(s.XmlnsR)
+//@ ensures unchangedExcept("map:string:[]byte", "Relationships.Relationships", "Relationship.*", "ContentTypes.Overrides", "Override.*", "Body.Elements", "cell:any", "SectionProperties.XmlnsR", "SectionProperties.FooterReferences", "FooterReference.ID", "cell:*FooterReference")
+
+// ---- END GENERATED ----
